@@ -193,6 +193,7 @@ def run(ck):
 
     policy_rules(ck)
     segment_rules(ck, crate("sc", W))
+    parse_rules(ck, crate("sc", W))
 
 
 # ---------------------------------------------------------------------------------------------------------------------
@@ -456,3 +457,53 @@ def segment_rules(ck, c):
                 ck.ob("DEFUSE", f.path, "header-word-read-then-compared:" + "/".join(sorted(set(consts) & {"MAGIC_HASH", "VERSION"})), rel == "Ne" and len(fresh) >= 1,
                       "four bytes are read immediately before being compared with the constant, and a difference rejects", f.loc(cx["bb"]))
         ck.ob("DEFUSE", f.path, "header-words", k == 2, "%d header comparisons" % k, f.loc(), nontrivial=False)
+
+
+def parse_rules(ck, c):
+    """parser: slices of the input end at or before the end of the input (a value ending exactly there is accepted),
+    sections are in strictly increasing order (custom sections anywhere), nothing is left over"""
+    n = 0
+    for p in sorted(c.paths()):
+        if not re.search(r"concordium_wasm::parse::", p):
+            continue
+        for b in c.get_all(p):
+            f = Fn(b)
+            idx = f.calls(r"ops::Index::index$")
+            if not idx:
+                continue
+            for cx in rules.comparisons(f):
+                if cx["kind"] != "bin":
+                    continue
+                oa, ob = f.origins(cx["a"], deep=True), f.origins(cx["b"], deep=True)
+                for (x, y, flip) in ((oa, ob, False), (ob, oa, True)):
+                    if has_call_origin(y, r"::len$") and has_call_origin(y, r"Cursor::<T>::get_ref$|Cursor<.*>::get_ref$") and has_call_origin(x, r"Cursor::<T>::position$|Cursor<.*>::position$") \
+                            and any(a[0] == "bin" and a[1].startswith("Add") for a in x):
+                        rel, d = rules.cmp_rejects(f, cx)
+                        if rel is None:
+                            continue
+                        if flip:
+                            rel = rules.FLIP[rel]
+                        n += 1
+                        ck.ob("CMP", p, "input-slice-end-exact@%d" % n, rel == "Gt",
+                              "rejects exactly when position + length exceeds the input" if rel == "Gt" else "rejects when end %s input length: a value that ends exactly at the end of the input is refused (or an overlong one admitted)" % rel, f.loc(cx["bb"]))
+    ck.floor("CMP", "input slice bounds in the parser", n, 2)
+    f = getfn(ck, "sc", W, W + "::parse::parse_skeleton")
+    if f:
+        # the 'Section out of place' error is reached only if the section is not custom AND not greater than the last one
+        errs = [bi for bi in f.reachable() if f.term(bi)["k"] == "call" and any(op_const(a) is not None and "Section out of place" in str(op_const(a).get("str", "")) for a in f.term(bi)["args"])]
+        ok = False
+        det = "no 'out of place' rejection found"
+        if errs:
+            conds = conditions_at(f, errs[0])
+            eq_custom = [(k, v) for (k, nn, v) in conds if k in ("cmp:Eq", "cmp:Ne") and ("Custom" in nn or "section_id" in nn)]
+            gt_last = [(k, v) for (k, nn, v) in conds if k in ("cmp:Gt", "cmp:Le", "cmp:Lt", "cmp:Ge")]
+            ok = any((k == "cmp:Eq" and v is False) or (k == "cmp:Ne" and v is True) for (k, v) in eq_custom) and any((k == "cmp:Gt" and v is False) or (k == "cmp:Le" and v is True) for (k, v) in gt_last)
+            det = "rejected exactly when the section is not a custom section and its id is not greater than the last non-custom id (conditions %s)" % [(k, v) for (k, nn, v) in conds if k.startswith("cmp")]
+        ck.ob("CMP", f.path, "sections-strictly-increasing", ok, det, f.loc(errs[0]) if errs else f.loc())
+        left = []
+        for cx in rules.comparisons(f):
+            rel, d = rules.cmp_rejects(f, cx)
+            o = f.origins(cx["a"], deep=True) | f.origins(cx["b"], deep=True)
+            if rel == "Ne" and has_call_origin(o, r"position$") and has_call_origin(o, r"::len$") and ("arg", 1) in o:
+                left.append(cx)
+        ck.ob("CMP", f.path, "no-leftover-bytes", len(left) == 1, "the module is refused unless the whole input was consumed", f.loc())
